@@ -118,7 +118,10 @@ def gen_case(rng, tier, ctx, i):
             for j in range(1, len(row)):
                 if row[j] and rng.random() < 0.6:
                     row[j] *= rng.choice([2, 3, -2, 5, 7])
-    return {"poly": p}
+    case = {"poly": p}
+    if rng.random() < 0.2:
+        case["derive"] = rng.getrandbits(32)
+    return case
 
 
 def run_case(case, ctx):
@@ -128,3 +131,15 @@ def run_case(case, ctx):
     ctx.call("column_bounds", P.column_bounds)
     ctx.call("n_row_combinations", lambda: P.n_row_combinations)
     c11.receiver_unchanged(ctx, case, P)
+    if case.get("derive") is not None:
+        # a second polyhedron derived from the first one by ordinary array operations, asked the same questions about its own entries
+        import random
+        how, Q = polygen.derive(P, random.Random(case["derive"]))
+        if type(Q) is type(P) and numpy.asarray(Q).ndim == 2 and getattr(Q, "variables", None) is not None:
+            ctx.count("count:derived-polyhedron:" + how)
+            ctx.call("tighten_column_bounds", Q.tighten_column_bounds)
+            ctx.call("row_bounds", Q.row_bounds)
+            ctx.call("column_bounds", Q.column_bounds)
+            ctx.call("n_row_combinations", lambda: Q.n_row_combinations)
+        else:
+            ctx.count("derived-polyhedron:not-a-polyhedron")
